@@ -123,8 +123,8 @@ Section L.
     - split; [constructor | lia].
     - destruct (Nat.eqb_spec n 0) as [->|Hz]; [split; [constructor | reflexivity]|].
       destruct (Nat.leb_spec n b) as [Hle|Hgt].
-      + split; [repeat constructor; lia | cbn; lia].
-      + destruct (IH (n - b)) as [H1 H2]; [lia|]. split; [constructor; [lia | exact H1] | cbn; lia].
+      + split; [repeat constructor; lia | unfold list_sum; cbn; lia].
+      + destruct (IH (n - b)) as [H1 H2]; [lia|]. split; [constructor; [lia | exact H1] | unfold list_sum in *; cbn; lia].
   Qed.
   Lemma chunk_sizes_spec b n :
     1 <= b -> Forall (fun m => 1 <= m <= b) (chunk_sizes b n) /\ list_sum (chunk_sizes b n) = n.
